@@ -148,6 +148,13 @@ class Mat:
     def abs_len(self):
         return len(self.rows)
 
+    @property
+    def shape(self):
+        return (len(self.rows), len(self.rows[0]) if self.rows else 0)
+
+    def abs_iter(self):
+        return [Vec(r) for r in self.rows]
+
     def abs_getitem(self, it, k):
         """basic indexing: m[r], m[r, c] with plain ints / slices (table sizes stand for their literal value)"""
         def conv(x, n):
@@ -259,7 +266,36 @@ def run_reference(prog, tnames, anames, make, hap, par, female, gc, edge, rmask,
         return verdicts.get(obj.meta.get("source"))
     model.method_prims["guess_xx"] = gx
     model.prims["cnvlib.fix.mask_bad_bins"] = lambda it, arr: Vec([False] * len(arr.data.cols["log2"].v), aligned=True)       # (read by the bad-bin log only)
-    model.ext["np.vstack"] = lambda it, rows: Mat([_cells(r) for r in rows])
+
+    def as_rows(it, rows):
+        out = []
+        for r in it.iterate(rows):
+            if isinstance(r, Mat):
+                out.extend(r.rows)
+            else:
+                out.append(_cells(r))
+        return out
+    # the ways numpy stacks per-sample rows into a samples x bins matrix
+    for nm in ("np.vstack", "np.row_stack"):
+        model.ext[nm] = lambda it, rows: Mat(as_rows(it, rows))
+    model.ext["np.stack"] = lambda it, rows, axis=0, **k: Mat(as_rows(it, rows)) if axis == 0 else Mat(Mat(as_rows(it, rows)).T)
+
+    def np_array(it, x=None, *a, nm="np.array", **k):
+        if isinstance(x, Mat):
+            return x
+        if isinstance(x, (list, tuple)) and x and all(isinstance(r, (Vec, list, tuple)) for r in x) and len({len(_cells(r)) for r in x}) == 1 and len(_cells(x[0])) != 0 and any(isinstance(r, Vec) for r in x):
+            return Mat([_cells(r) for r in x])
+        return it.lib.ext_call(it, nm, [x] + list(a), k)
+    model.ext["np.array"] = np_array
+    model.ext["np.asarray"] = lambda it, x=None, *a, **k: np_array(it, x, *a, nm="np.asarray", **k)
+    model.ext["np.transpose"] = lambda it, m, *a, **k: Mat(m.T) if isinstance(m, Mat) else it.lib.ext_call(it, "np.transpose", [m] + list(a), k)
+
+    def concatenate(it, parts, axis=0, **k):
+        parts = list(it.iterate(parts))
+        if parts and all(isinstance(p_, Mat) for p_ in parts):
+            return hstack(it, parts) if axis in (1, -1) else Mat([r for p_ in parts for r in p_.rows])
+        return it.lib.ext_call(it, "np.concatenate", [parts], dict(k, **({"axis": axis} if axis != 0 else {})))
+    model.ext["np.concatenate"] = concatenate
 
     def hstack(it, parts):
         parts = list(parts)
@@ -269,19 +305,23 @@ def run_reference(prog, tnames, anames, make, hap, par, female, gc, edge, rmask,
             raise Raised("ValueError", "all the input array dimensions except for the concatenation axis must match exactly")
         return Mat([sum((p_.rows[i] for p_ in parts), []) for i in range(len(parts[0].rows))])
     model.ext["np.hstack"] = hstack
+    model.ext["np.column_stack"] = lambda it, parts: hstack(it, parts) if all(isinstance(p_, Mat) for p_ in parts) else it.lib.ext_call(it, "np.column_stack", [parts], {})
 
     def reg(kind, payload):
         name = f"{kind.rsplit('.', 1)[-1]}#{len(ev['reg'])}"
         ev["reg"][name] = (kind, payload)
         return Term.sym(name)
 
-    def along(it, f, axis, m):
-        if axis != 0 or not isinstance(m, Mat):
-            raise Undecided("np.apply_along_axis on something else than axis 0 of the sample matrix")
-        return Vec([reg(getattr(f, "qn", repr(f)), (col, None)) for col in m.T])
+    def along(it, f, axis, m, *a, **k):
+        if axis not in (0, 1) or not isinstance(m, Mat):
+            raise Undecided("np.apply_along_axis on something else than the sample matrix")
+        lines = m.T if axis == 0 else [tuple(r) for r in m.rows]
+        if getattr(f, "qn", "").startswith("cnvlib.descriptives.") and not a and not k:
+            return Vec([reg(f.qn, (col, None)) for col in lines])
+        return Vec([it.call(f, [Vec(list(col))] + list(a), dict(k)) for col in lines])          # any other function: applied to each column
     model.ext["np.apply_along_axis"] = along
     for est in ("biweight_location", "biweight_midvariance", "modal_location", "median_absolute_deviation", "interquartile_range", "weighted_median", "q_n", "gapper_scale"):
-        stub = (lambda it, a, *rest, est=est, **k: reg(f"cnvlib.descriptives.{est}", (tuple(a), k.get("initial", rest[0] if rest else None))))
+        stub = (lambda it, a, *rest, est=est, **k: reg(f"cnvlib.descriptives.{est}", (tuple(_cells(a)), k.get("initial", rest[0] if rest else None))))
         stub.qn = f"cnvlib.descriptives.{est}"
         model.prims[stub.qn] = stub
     if genome is not None:
